@@ -29,7 +29,8 @@ scribble_stack(void) {
 		area[i] = 0xa5;
 }
 
-static void hook_start(tpt_p tpt) { tp_log(R_HOOK_START, (uint64_t)(uintptr_t)tpt, tpt_get_num(tpt), 0, 0); }
+static atomic_uint g_start_hooks;
+static void hook_start(tpt_p tpt) { tp_log(R_HOOK_START, (uint64_t)(uintptr_t)tpt, tpt_get_num(tpt), 0, 0); atomic_fetch_add(&g_start_hooks, 1); }
 static atomic_uint g_stop_hooks;
 static void hook_stop(tpt_p tpt) { tp_log(R_HOOK_STOP, (uint64_t)(uintptr_t)tpt, tpt_get_num(tpt), 0, 0); atomic_fetch_add(&g_stop_hooks, 1); }
 
@@ -42,6 +43,7 @@ pool_make_ex(uint8_t nthreads, uint8_t skip_first, uint16_t stop_mask, const tp_
 	size_t i;
 	uint32_t k = 0;
 
+	atomic_store(&g_start_hooks, 0);
 	memset(&cp, 0, sizeof(cp));
 	for (i = (skip_first ? 1 : 0); i < nthreads; i ++) {
 		k ++;
@@ -65,6 +67,16 @@ pool_make_ex(uint8_t nthreads, uint8_t skip_first, uint16_t stop_mask, const tp_
 	tp_harness_arm();
 	rc = tp_threads_create(*ptp, skip_first);
 	tp_harness_disarm();
+	/* every started thread logs its start hook: wait for them, the log is cleared next and a late
+	 * writer would tear a record of the scenario proper */
+	{
+		uint32_t started = 1; /* virtual thread */
+		for (i = 0; i < nthreads; i ++) {
+			if (tpt_is_running(tp_thread_get(*ptp, i)))
+				started ++;
+		}
+		tp_wait_until(&g_start_hooks, started, CEIL_MS);
+	}
 	tp_harness_reset(plans);
 	if (0 != rc)
 		return (rc);
